@@ -172,6 +172,11 @@ type kernelSpec struct {
 	params []string          // the inputs, in the order of the Lean binders
 	opaque map[string]string // `uint64(<callee>(...))` -> input of that name (uint64); for non-integer subterms
 	callIn map[string]string // result of a call of the package function <callee> (not an input by name) -> input of that name
+	// tupleIn: `a, b := <callee>(...)` of a function outside the package: the i-th result is the input of that
+	// name, whatever the local is called; rangeIn: the key of `for k := range <target slice>` is the input of
+	// that name.  (Inputs by ROLE: renaming a local does not rename the parameter of the generated kernel.)
+	tupleIn map[string][]string
+	rangeIn string
 	// tgtStore only
 	depth    int               // number of index levels of the stored element (`recv.f[i][j]`: 2, `recv.f`: 0)
 	lhsInput string            // name of the input that stands for the old value of the left-hand side
@@ -180,11 +185,12 @@ type kernelSpec struct {
 
 var arithKernels = []kernelSpec{
 	{lean: "cmsPosition", file: "base_count_min_sketch.go", recv: "AbstractCountMinSketch", fn: "getPositions",
-		kind: tgtAssign, name: "positions", elem: true, params: []string{"hash1", "hash2", "c", "columns"}},
+		kind: tgtAssign, name: "positions", elem: true, params: []string{"hash1", "hash2", "c", "columns"},
+		tupleIn: map[string][]string{"metro.Hash128": {"hash1", "hash2"}}, rangeIn: "c"},
 	{lean: "hllRegisterIndex", file: "base_hyperloglog.go", recv: "AbstractHyperLogLog", fn: "getRegisterIndexAndCount",
-		kind: tgtReturn, index: 0, params: []string{"hash", "numBytesPerHash"}},
+		kind: tgtReturn, index: 0, params: []string{"hash", "numBytesPerHash"}, tupleIn: map[string][]string{"metro.Hash128": {"hash", ""}}},
 	{lean: "hllCount", file: "base_hyperloglog.go", recv: "AbstractHyperLogLog", fn: "getRegisterIndexAndCount",
-		kind: tgtReturn, index: 1, params: []string{"hash", "numBytesPerHash"}},
+		kind: tgtReturn, index: 1, params: []string{"hash", "numBytesPerHash"}, tupleIn: map[string][]string{"metro.Hash128": {"hash", ""}}},
 	{lean: "hllStoredIndexRedis", file: "hyperloglog_redis.go", recv: "HyperLogLogRedis", fn: "Update",
 		kind: tgtArg, name: "h.updateRegisters", index: 0, params: []string{"registerIndex"}},
 	{lean: "hllStoredValueRedis", file: "hyperloglog_redis.go", recv: "HyperLogLogRedis", fn: "Update",
@@ -198,7 +204,7 @@ var arithKernels = []kernelSpec{
 	{lean: "cuckooKickIndexRedis", file: "cuckoo_filter_redis.go", recv: "CuckooFilterRedis", fn: "Insert",
 		kind: tgtAssign, name: "newIndex", params: []string{"index", "hash", "len_buckets"}, callIn: map[string]string{"getHash": "hash"}},
 	{lean: "bloomIndexInt", file: "bloom_filter.go", recv: "BloomFilter", fn: "getIndex",
-		kind: tgtReturn, index: 0, unwrap: []string{"uint", "math.Abs", "float64"},
+		kind: tgtReturn, index: 0, unwrap: []string{"uint", "?math.Abs", "float64"},
 		params: []string{"hashes_0", "hashes_1", "i", "cubic", "size"},
 		opaque: map[string]string{"math.Floor": "cubic"}},
 	{lean: "cmsCellUpdate", file: "count_min_sketch.go", recv: "CountMinSketch", fn: "Update",
@@ -1247,6 +1253,20 @@ func (c *arithCtx) ident(id *ast.Ident, visible []ast.Node, inLet bool) (lexpr, 
 	if c.parent != nil && d.isParam {
 		return lexpr{}, tyNone, unsupportedf("%s: `%s` is not a bound parameter of the inlined helper %s", c.at(id.Pos()), name, c.fd.Name.Name)
 	}
+	if role := c.roleOf(d); role != "" && c.parent == nil && !c.isParam(name) {
+		// an input by what it is (result of the hash call, key of the loop over the target slice)
+		t, err := c.localType(name, d, id.Pos())
+		if err != nil {
+			return lexpr{}, tyNone, err
+		}
+		if c.assigns[name] > 1 {
+			return lexpr{}, tyNone, unsupportedf("%s: `%s` (input `%s` by role) is assigned more than once", c.at(id.Pos()), name, role)
+		}
+		if d.rangeOf != nil {
+			c.mark(d.node)
+		}
+		return c.input(role, t, "local `"+name+"`", id.Pos())
+	}
 	if c.isParam(name) && c.parent == nil {
 		t, err := c.localType(name, d, id.Pos())
 		if err != nil {
@@ -1839,6 +1859,24 @@ func (c *arithCtx) callee(call *ast.CallExpr, visible []ast.Node) (*ast.FuncDecl
 	return cands[0], ""
 }
 
+// roleOf: the input a local IS, independently of its name (spec.tupleIn / spec.rangeIn), or ""
+func (c *arithCtx) roleOf(d *localDecl) string {
+	if d == nil {
+		return ""
+	}
+	if d.call != nil {
+		if names, ok := c.spec.tupleIn[types.ExprString(d.call.Fun)]; ok && d.callIdx < len(names) {
+			return names[d.callIdx]
+		}
+	}
+	if d.rangeOf != nil && c.spec.rangeIn != "" {
+		if id, ok := d.rangeOf.(*ast.Ident); ok && id.Name == c.spec.name {
+			return c.spec.rangeIn
+		}
+	}
+	return ""
+}
+
 // callInput: the call is an input of the kernel by what it computes (spec.callIn: package function -> input name)
 func (c *arithCtx) callInput(call *ast.CallExpr, visible []ast.Node) (lexpr, goTy, bool, error) {
 	id, ok := call.Fun.(*ast.Ident)
@@ -2090,6 +2128,10 @@ func (p *arithPkg) translate(spec *kernelSpec) kernelResult {
 		return fail(unsupportedf("%s: the result is forwarded from %s", c.at(tgt.fwd.Pos()), types.ExprString(tgt.fwd.Fun)))
 	}
 	for _, u := range spec.unwrap {
+		// "?f": the wrapper f may be absent (math.Abs around a float64 converted from an unsigned integer is
+		// the identity)
+		optional := strings.HasPrefix(u, "?")
+		u = strings.TrimPrefix(u, "?")
 		for {
 			p, ok := e.(*ast.ParenExpr)
 			if !ok {
@@ -2098,6 +2140,9 @@ func (p *arithPkg) translate(spec *kernelSpec) kernelResult {
 			e = p.X
 		}
 		call, ok := e.(*ast.CallExpr)
+		if optional && (!ok || types.ExprString(call.Fun) != u) {
+			continue
+		}
 		if !ok || types.ExprString(call.Fun) != u || len(call.Args) != 1 {
 			return fail(unsupportedf("%s: expected a call %s(...) around the integer part, found %s", c.at(e.Pos()), u, types.ExprString(e)))
 		}
@@ -2139,7 +2184,7 @@ func (p *arithPkg) translate(spec *kernelSpec) kernelResult {
 		fmt.Fprintf(&b, ", the store to %s", c.lhsKey)
 	}
 	if len(spec.unwrap) > 0 {
-		fmt.Fprintf(&b, ", inside %s(...)", strings.Join(spec.unwrap, "("))
+		fmt.Fprintf(&b, ", inside %s(...)", strings.ReplaceAll(strings.Join(spec.unwrap, "("), "?", ""))
 	}
 	b.WriteString("\n")
 	for _, l := range lines {
